@@ -10,7 +10,7 @@
    budget is (node limit, answers of the deadline callback at the successive checkpoints) and is
    universally quantified everywhere: `unlimited` is the plain operation, anything else its try_* twin. *)
 Require Import KV.Sdd.Model KV.Sdd.Sem KV.Sdd.Spec KV.Sdd.History.
-Require Import KV.Sdd.Decomp KV.Sdd.Hoare KV.Sdd.MainProofs KV.Sdd.WmcProofs KV.Sdd.DecompHist KV.Sdd.BudgetSim KV.Sdd.CubeProofs KV.Sdd.CubeHist KV.Sdd.SafeProofs KV.Sdd.SafeHist.
+Require Import KV.Sdd.Decomp KV.Sdd.Hoare KV.Sdd.MainProofs KV.Sdd.WmcProofs KV.Sdd.DecompHist KV.Sdd.BudgetSim KV.Sdd.CubeProofs KV.Sdd.CubeHist KV.Sdd.SafeProofs KV.Sdd.SafeHist KV.Sdd.Reduced KV.Sdd.CanonProofs.
 Require Import QArith.
 
 (* (1) apply is exact: whatever the budget and the fuel, IF it returns a handle, the handle denotes
@@ -266,10 +266,43 @@ Theorem C07_canonical_simple_partial :
 Proof. exact canonical_simple. Qed.
 Print Assumptions C07_canonical_simple_partial.
 
+(* (8) canonicity for every number of variables, relative to the decidable reducedness check `reduced_ok` (Reduced.v:
+   the vtree is right-linear - every internal node has a leaf as left child, which is how ensure_variable_weights grows
+   it - and every Decision node is {(literal x, s1), (literal not-x, s2)} sorted, compressed (s1 <> s2), not trimmable).
+   For such a manager two handles with the same denotation are EQUAL: Darwiche's canonicity argument specialised to
+   right-linear vtrees, by induction on the handles (CanonProofs.v).
+   PARTIAL: that every reachable manager passes `reduced_ok` is NOT proved - the missing lemma is exactly
+       "reduced_ok is preserved by literal / apply / negate / exactly_one under every budget"
+   (a fourth Hoare pass that needs, at the allocation site of unique_d, the semantic partition invariant and the
+   positional invariant together to know that compress either merges the two complementary literals into TRUE or leaves
+   two distinct subs).  The check evaluates `reduced_ok` on the final model manager of every generated history. *)
+Theorem C07_canonical_reduced :
+  forall m a b,
+    MInv m -> SInv m -> SInvP m -> reduced_ok m = true ->
+    validh m a -> validh m b -> (forall s, den m a s = den m b s) -> a = b.
+Proof. exact canonical_reduced. Qed.
+Print Assumptions C07_canonical_reduced.
+
+Theorem C07_canonical_history_partial :
+  forall fuel ops s outs i j,
+    run_from fuel rinit ops = (s, outs) -> run_ok fuel rinit ops = true -> (4 * length ops + 3 < fuel)%nat ->
+    reduced_ok (rm s) = true ->
+    (forall sg, feval sg (frm s i) = feval sg (frm s j)) -> hnd s i = hnd s j.
+Proof. exact history_canonical. Qed.
+Print Assumptions C07_canonical_history_partial.
+
 (* ---- non-vacuity ------------------------------------------------------------------------------------ *)
 (* the empty manager satisfies the invariant *)
 Example C07_inv_inhabited : MInv mgr_new.
 Proof. exact MInv_new. Qed.
+
+(* reduced_ok holds of a concrete reachable manager with shared sub-diagrams (so C07_canonical_* are not vacuous) *)
+Example C07_reduced_example :
+  let ops := [OVar 2 (1#2) (1#2) Indep; OVar 0 (1#2) (1#2) Indep; OVar 1 (1#2) (1#2) Indep;
+              OLit 0 true None; OLit 1 true None; OLit 2 true None;
+              OApply 0 1 And None; OApply 0 2 And None; OApply 3 4 Or None; ONeg 5 None; OEo [0; 1; 2] None]%N in
+  reduced_ok (rm (fst (run_from 100 rinit ops))) = true.
+Proof. vm_compute. reflexivity. Qed.
 
 (* the hypotheses of C07_wmc are met by a concrete reachable manager, and the value is 27/50 *)
 Example C07_wmc_example :
